@@ -122,6 +122,16 @@ func (x *Exec) lvalue(st *State, e ast.Expr) LV {
 		if obj == nil {
 			obj = x.info.Defs[e]
 		}
+		if x.curClause != nil && obj != nil {
+			if ev, ok := x.curClause.Extra[e.Name]; ok && ev == obj {
+				if pv, ok := x.placehold[e.Name]; ok && isObjType(pv.Typ) {
+					return LV{kind: lvObj, ref: pv.T, typ: pv.Typ}
+				}
+				if ro, ok := x.curClause.Real[e.Name]; ok {
+					obj = ro
+				}
+			}
+		}
 		v, ok := obj.(*types.Var)
 		if !ok {
 			x.fail("lvalue: %s is not a variable", e.Name)
@@ -552,16 +562,22 @@ func (x *Exec) expr(st *State, e ast.Expr) Val {
 }
 
 func (x *Exec) identVal(st *State, e *ast.Ident) Val {
-	if pv, ok := x.placehold[e.Name]; ok {
-		if obj := x.info.Uses[e]; obj != nil {
-			if ev, ok := x.curExtra()[e.Name]; ok && ev == obj {
-				return pv
-			}
-		}
-	}
 	obj := x.info.Uses[e]
 	if obj == nil {
 		obj = x.info.Defs[e]
+	}
+	if x.curClause != nil && obj != nil {
+		if ev, ok := x.curClause.Extra[e.Name]; ok && ev == obj {
+			// a parameter of the clause wrapper: placeholder value or the real object of that name
+			if pv, ok := x.placehold[e.Name]; ok {
+				return pv
+			}
+			ro, ok := x.curClause.Real[e.Name]
+			if !ok {
+				x.fail("clause identifier %s has no binding", e.Name)
+			}
+			obj = ro
+		}
 	}
 	switch o := obj.(type) {
 	case *types.Nil:
@@ -594,12 +610,6 @@ func (x *Exec) identVal(st *State, e *ast.Ident) Val {
 	return Val{}
 }
 
-func (x *Exec) curExtra() map[string]*types.Var {
-	if x.curClause != nil {
-		return x.curClause.Extra
-	}
-	return nil
-}
 
 func (x *Exec) unary(st *State, e *ast.UnaryExpr) Val {
 	c := x.c
